@@ -283,6 +283,12 @@ class ResumedHistogram(Spec):
         return [("canary", z3.BoolVal(out.post["listed"] == []))]
 
 
+def extra_checks(rep, tier):
+    # the cut-off date of cutoff mode is parsed by time_format.parse_date: it must mean UTC on every host (bounded run-time contract of C48)
+    from contracts import C48
+    C48.timezone_check(rep, "C26")
+
+
 def contracts(tier):
     s = ProcessShare()
     if tier == "thorough":
